@@ -8,7 +8,7 @@ from contracts.common import add_common, WF, wf_theory, preorder_facts
 
 VERIFY = ["trees.transitions.topdown"]
 SHARDS = {"trees.transitions.topdown": 4}
-TRUSTED = ["contracts of trees.preorder / trees.children / trees.terminals assumed (see C19)"]
+TRUSTED = ["contracts of trees.preorder / trees.children / trees.terminals used at call sites; the three functions are verified under C19 (preorder against the recursive definition of P, the other two against characterisations)"]
 ASSUMPTIONS = ["Transition objects are modelled as records with the field name"]
 
 S_ = z3.StringVal
